@@ -250,14 +250,17 @@ impl LibraryPath {
         validate_path_len(source.as_ref())?;
 
         // special handling of the first component as it may contain non-alphanumeric characters
-        let (path, mut num_components) = if source.as_ref().starts_with(Self::KERNEL_PATH) {
-            let split_at = Self::KERNEL_PATH.len() + Self::PATH_DELIM.len();
-            (source.as_ref().split_at(split_at).1, 1)
-        } else if source.as_ref().starts_with(Self::EXEC_PATH) {
-            let split_at = Self::EXEC_PATH.len() + Self::PATH_DELIM.len();
-            (source.as_ref().split_at(split_at).1, 1)
-        } else {
-            (source.as_ref(), 0)
+        let source = source.as_ref();
+        let special_prefix =
+            [Self::KERNEL_PATH, Self::EXEC_PATH].into_iter().find(|p| source.starts_with(p));
+        let (path, mut num_components) = match special_prefix {
+            // the special component on its own is a valid path with a single component
+            Some(prefix) if source.len() == prefix.len() => return Ok(1),
+            Some(prefix) if source[prefix.len()..].starts_with(Self::PATH_DELIM) => {
+                (&source[prefix.len() + Self::PATH_DELIM.len()..], 1)
+            }
+            // anything else is validated as a regular path (and rejected because of the '#')
+            _ => (source, 0),
         };
 
         // count the number of components in the path and make sure each component is valid
